@@ -872,7 +872,12 @@ func (c *Cluster) EmitEvent(id string, kind string, msg message.Message) int {
 				if raw, err := frame.NewRawCodec().ConvertToRawFrame(frm); err == nil {
 					h = HashBody(raw.Header.Flags, raw.Header.OpCode, raw.Body)
 				}
-				if !cn.emitIfOpen("BackendEvent", "id", id, "b", cn.ID, "host", node.IP, "kind", kind, "h", h) {
+				// changes of functions and aggregates cannot be expressed before protocol version 4
+				v4only := false
+				if sc, ok := msg.(*message.SchemaChangeEvent); ok {
+					v4only = sc.Target == primitive.SchemaChangeTargetFunction || sc.Target == primitive.SchemaChangeTargetAggregate
+				}
+				if !cn.emitIfOpen("BackendEvent", "id", id, "b", cn.ID, "host", node.IP, "kind", kind, "h", h, "v4only", v4only) {
 					continue
 				}
 				if err := cn.SendFrame(frm); err == nil {
